@@ -310,6 +310,9 @@ class amg {
             for(const auto &lvl : levels) b += lvl.bytes();
             return b;
         }
+#ifdef AMGCL_VERIF
+    friend struct ::amgcl::verif::access;
+#endif
     private:
         struct level {
             size_t m_rows, m_nonzeros;
